@@ -332,6 +332,69 @@ def build_overlay(ctx):
             out.append(st)
         return out, changed
 
+    def expr_template(h):
+        """(params, expression) of a helper that is lets + one `return <expr>`, else None"""
+        try:
+            params, defaults, body, assigned = _prepare(h)
+        except NotInlinable:
+            return None
+        lets = body[:-1]
+        if not body or not isinstance(body[-1], ast.Return) or body[-1].value is None or len(lets) > 3 or not all(
+                isinstance(l_, ast.Assign) and len(l_.targets) == 1 and isinstance(l_.targets[0], ast.Name) for l_ in lets):
+            return None
+        if len({l_.targets[0].id for l_ in lets}) != len(lets) or any(l_.targets[0].id in params for l_ in lets):
+            return None
+        return params, defaults, lets, body[-1].value
+
+    class _ExprInline(ast.NodeTransformer):
+        def __init__(self, owner):
+            self.owner, self.changed = owner, False
+
+        def visit_FunctionDef(self, node):
+            return node if node is not self.owner.node else self.generic_visit(node)
+
+        def visit_Lambda(self, node):
+            return node
+
+        def visit_Call(self, node):
+            self.generic_visit(node)
+            h = target.get(id(node))
+            if h is None or h.key == self.owner.key:
+                return node
+            tpl = expr_template(h)
+            if tpl is None or any(isinstance(a_, ast.Starred) for a_ in node.args) or any(k.arg is None for k in node.keywords):
+                return node
+            params, defaults, lets, expr = tpl
+            ps = list(params)
+            m = {}
+            if h.is_method() and h.kind() != "static":
+                rc = receiver_of(node)
+                if rc is None:
+                    return node
+                m[ps.pop(0)] = rc
+            for p_, v_ in zip(ps, node.args):
+                m[p_] = v_
+            kw = {k.arg: k.value for k in node.keywords}
+            for p_ in ps[len(node.args):]:
+                if p_ in kw:
+                    m[p_] = kw[p_]
+                elif p_ in defaults:
+                    m[p_] = defaults[p_]
+                else:
+                    return node
+            # an argument that is not a plain name/constant/attribute is evaluated once by the call; substituting it is only the same
+            # when the parameter is used at most once
+            for p_, v_ in m.items():
+                uses = sum(1 for x in ast.walk(expr) if isinstance(x, ast.Name) and x.id == p_) + sum(
+                    1 for l_ in lets for x in ast.walk(l_.value) if isinstance(x, ast.Name) and x.id == p_)
+                if not _simple(v_) and uses > 1:
+                    return node
+            sub = dict(m)
+            for l_ in lets:
+                sub[l_.targets[0].id] = _Rename({}, sub).visit(copy.deepcopy(l_.value))
+            self.changed = True
+            return ast.copy_location(_Simplify().visit(_Rename({}, sub).visit(copy.deepcopy(expr))), node)
+
     by_module = {}
     for fk, f in ix.funcs.items():
         if isinstance(f.node, ast.Lambda) or f.qual == "<module>" or not isinstance(f.node, ast.FunctionDef):
@@ -339,8 +402,11 @@ def build_overlay(ctx):
         if not any(id(n) in target for n in _own_walk(f.node)):
             continue
         nb, ch = rewrite_block(f.node.body, f)          # the index's trees are private to this run: edited in place
+        f.node.body = nb
+        ei = _ExprInline(f)
+        ei.visit(f.node)
+        ch = ch or ei.changed
         if ch:
-            f.node.body = nb
             touched.add(fk)
             by_module[f.module.rel] = f.module
     overlay = {}
